@@ -111,3 +111,11 @@ Theorem C04_preserve_elem_is_the_carried_groups tok frag :
   exists F, sem_str (s2l frag) = Some F /\ (fragment_kind F = KCarry <-> In tok preserve_elem).
 Proof. exact (preserve_elem_is_the_carried_groups tok frag). Qed.
 Print Assumptions C04_preserve_elem_is_the_carried_groups.
+
+(* BOUNDED, three double bonds on unbranched chains of fewer than 20 carbons (the conjugated trienoic acids among them) *)
+Theorem C04_poly_carbon_three_double_bonds_bounded n d1 d2 d3 :
+  n < 20 -> snd d1 < 20 -> snd d2 < 20 -> snd d3 < 20 ->
+  acyl_ok (mkAcyl false false n [d1; d2; d3]) = true -> code_writes [d1; d2; d3] = true ->
+  parse_poly_carbon (name_of (mkAcyl false false n [d1; d2; d3])) = acyl_text (mkAcyl false false n [d1; d2; d3]).
+Proof. exact (poly_carbon_three_double_bonds_bounded n d1 d2 d3). Qed.
+Print Assumptions C04_poly_carbon_three_double_bonds_bounded.
